@@ -52,6 +52,20 @@ impl Post {
     }
 }
 
+impl Post {
+    fn validate_string_data(&self, ctx: &mut ValidationCtx) {
+        for name in self.string_data.iter().flatten() {
+            // a pascal string has a one byte length
+            if name.0.len() > u8::MAX as usize {
+                ctx.report(format!("glyph name longer than 255 bytes: '{}'", name.0));
+            }
+            if !name.0.is_ascii() {
+                ctx.report(format!("glyph name is not ascii: '{}'", name.0));
+            }
+        }
+    }
+}
+
 impl std::ops::Deref for PString {
     type Target = str;
     fn deref(&self) -> &Self::Target {
